@@ -1058,12 +1058,24 @@ _PROJ = None
 INTERNAL = {'trailer', 'arglist', 'testlist_comp', 'star_expr', 'sync_comp_for', 'comp_if'}
 
 
+_CAPTURED = {}
+
+
 def _project():
     global _PROJ
     if _PROJ is None:
         import jedi
         import tempfile
+        from jedi.api import refactoring as _rf
         _PROJ = jedi.Project(tempfile.mkdtemp(prefix='c06proj_'))
+        orig = _rf.inline
+
+        def wrapped(inference_state, names):      # observe the references inline works on (harness-side wrapper)
+            names = list(names)
+            _CAPTURED['names'] = names
+            return orig(inference_state, names)
+        if getattr(orig, '__name__', '') != 'wrapped':
+            _rf.inline = wrapped
     return _PROJ
 
 
@@ -1152,11 +1164,10 @@ def inline_why(refs, rhs, st):
 def inline_cases(script, src, new, line, col):
     """Model cases for one successful inline: list of (case text, meta), skipped count, problems."""
     cases, skipped, problems = [], 0, []
-    try:
-        names = script.get_references(line, col, include_builtins=True)
-    except Exception as e:
-        return [], 0, ['get_references raised %r' % e], []
-    tns = [d._name.tree_name for d in names if d._name.tree_name is not None]
+    names = _CAPTURED.get('names')
+    if names is None:
+        return [], 0, ['inline was not reached through jedi.api.refactoring.inline'], []
+    tns = [n.tree_name for n in names if n.tree_name is not None]
     defs = [t for t in tns if t.is_definition()]
     refs = sorted((t for t in tns if not t.is_definition()), key=lambda t: t.start_pos)
     if len(defs) != 1:
@@ -1296,6 +1307,8 @@ def stmt_range_features(info, req):
     f['lambda_params'] = sorted({a.arg for s in stmts for n in ast.walk(s) if isinstance(n, ast.Lambda) for a in n.args.args} |
                                 {t.id for s in stmts for n in ast.walk(s) if isinstance(n, ast.comprehension)
                                  for t in ast.walk(n.target) if isinstance(t, ast.Name)})
+    f['fstring_conv'] = sorted({chr(n.conversion) for s in stmts for n in ast.walk(s)
+                                if isinstance(n, ast.FormattedValue) and n.conversion != -1})
     blk = None
     par = info.parent.get(stmts[-1])
     for fld in ('body', 'orelse', 'finalbody'):
@@ -1329,6 +1342,8 @@ def classify_xfun_stmt(feats, status, new, base):
     params, outs = _new_func_shape(new)
     if status[0] in ('ok', 'exc') and set(feats['lambda_params']) & (set(params) | set(outs)):
         return 'lambda-parameter-treated-as-variable'
+    if status[0] == 'exc' and set(feats['fstring_conv']) & set(params):
+        return 'fstring-conversion-treated-as-name'
     if status[0] == 'exc' and status[1] in ('UnboundLocalError', 'NameError'):
         mm = re.search(r"variable '(\w+)'|name '(\w+)'", status[2])
         v = mm and (mm.group(1) or mm.group(2))
@@ -1369,10 +1384,12 @@ def _edge_is_unary(n):
 
 def expr_sel_features(module_node, req, selected_text, new):
     """Classifier features of an expression selection, computed on the parse tree of the input."""
-    f = dict(starts_on_keyword_operator=False, unary_edge=False, lambda_params=[])
+    f = dict(starts_on_keyword_operator=False, unary_edge=False, lambda_params=[], fstring_conv=[])
     if selected_text:
         try:
             tr = ast.parse(selected_text.strip(), mode='eval')
+            f['fstring_conv'] = sorted({chr(n.conversion) for n in ast.walk(tr)
+                                        if isinstance(n, ast.FormattedValue) and n.conversion != -1})
             f['lambda_params'] = sorted({a.arg for n in ast.walk(tr) if isinstance(n, ast.Lambda) for a in n.args.args} |
                                         {t.id for n in ast.walk(tr) if isinstance(n, ast.comprehension)
                                          for t in ast.walk(n.target) if isinstance(t, ast.Name)})
@@ -1421,10 +1438,12 @@ def classify_expr_sel(kind, f, status, new):
         return 'range-starts-on-keyword-operator'
     if f['unary_edge']:
         return 'unary-operator-at-selection-edge'
-    if kind == 'xfun' and f['lambda_params'] and status[0] != 'syntax':
+    if kind == 'xfun' and status[0] != 'syntax':
         params, outs = _new_func_shape(new)
         if set(f['lambda_params']) & set(params):
             return 'lambda-parameter-treated-as-variable'
+        if set(f['fstring_conv']) & set(params):
+            return 'fstring-conversion-treated-as-name'
     return None
 
 
@@ -1466,8 +1485,8 @@ def make_requests(info, rng, budget, exhaustive=False):
             modes = ['range', 'cursor'] if exhaustive else [rng.choice(['range', 'range', 'cursor'])]
             if kind == 'xfun' and not exhaustive and rng.random() < 0.5:
                 continue
-            for mode in modes:
-                if mode == 'range':
+            for how in modes:
+                if how == 'range':
                     reqs.append(dict(kind=kind, sel='node', node=i, line=n.lineno, col=n.col_offset,
                                      uline=n.end_lineno, ucol=n.end_col_offset))
                 else:
@@ -1558,6 +1577,7 @@ def _prog_task(task):
             kw['new_name'] = NEW_VAR if kind == 'xvar' else NEW_FUNC
             if req['uline'] is not None:
                 kw['until_line'], kw['until_column'] = req['uline'], req['ucol']
+        _CAPTURED.clear()
         outcome, payload = _call(script, api, req['line'], req['col'], **kw)
         res['outcome'] = outcome
         if outcome == 'refused':
@@ -1838,3 +1858,324 @@ def matrix_tasks(ctx):
                 continue
             ext.append(('mx:%s|%s' % (sel[0], slot[0]), src, len(ext), dict(mode='matrix-extract'), True))
     return inl, ext
+
+
+# =====================================================================================
+# 7. ev stream: the model's semantics and printer against CPython
+
+class NonInt(Exception):
+    pass
+
+
+def arith_node(rng, d):
+    if d <= 0 or rng.random() < 0.2:
+        return ('var', rng.choice('abc')) if rng.random() < 0.6 else ('num', rng.randint(0, 6))
+    k = rng.choices(['tern', 'or', 'and', 'not', 'cmp', 'bin', 'un', 'pow', 'paren'], [10, 8, 8, 6, 10, 40, 8, 6, 4])[0]
+    e = lambda: arith_node(rng, d - 1)
+    if k == 'tern':
+        return ('tern', e(), e(), e())
+    if k in ('or', 'and'):
+        return (k, e(), e())
+    if k == 'not':
+        return ('not', e())
+    if k == 'cmp':
+        return ('cmp', rng.choice(['<', '>', '==', '>=', '<=', '!=']), e(), e())
+    if k == 'bin':
+        op = rng.choice(['|', '^', '&', '<<', '>>', '+', '+', '-', '-', '*', '*', '//', '//', '%', '%', '/', '@'])
+        if op in ('<<', '>>'):
+            return ('bin', op, e(), arith_node(rng, 0) if rng.random() < 0.8 else ('un', '-', ('num', 1)))
+        return ('bin', op, e(), e())
+    if k == 'un':
+        return ('un', rng.choice(['-', '+', '~']), e())
+    if k == 'pow':
+        return ('pow', arith_node(rng, min(d - 1, 1)), rng.choice([('num', rng.randint(0, 3)), ('var', rng.choice('abc')), ('un', '-', ('num', 1))]))
+    return ('paren', e())
+
+
+def py_ev(n, env):
+    """Reference evaluation on ints with Python's own operators; NonInt when an evaluated part is not an int."""
+    k = n[0]
+
+    def chk(v):
+        if isinstance(v, bool):
+            return int(v)
+        if not isinstance(v, int):
+            raise NonInt()
+        return v
+    if k == 'var':
+        return env[n[1]]
+    if k == 'num':
+        return n[1]
+    if k == 'paren':
+        return py_ev(n[1], env)
+    if k == 'tern':
+        return py_ev(n[2], env) if py_ev(n[1], env) else py_ev(n[3], env)
+    if k == 'or':
+        return py_ev(n[1], env) or py_ev(n[2], env)
+    if k == 'and':
+        return py_ev(n[1], env) and py_ev(n[2], env)
+    if k == 'not':
+        return int(not py_ev(n[1], env))
+    import operator as o
+    if k == 'cmp':
+        f = {'<': o.lt, '>': o.gt, '==': o.eq, '>=': o.ge, '<=': o.le, '!=': o.ne}[n[1]]
+        return int(f(py_ev(n[2], env), py_ev(n[3], env)))
+    if k == 'bin':
+        f = {'|': o.or_, '^': o.xor, '&': o.and_, '<<': o.lshift, '>>': o.rshift, '+': o.add, '-': o.sub, '*': o.mul,
+             '//': o.floordiv, '%': o.mod, '/': o.truediv, '@': o.matmul}[n[1]]
+        return chk(f(py_ev(n[2], env), py_ev(n[3], env)))
+    if k == 'un':
+        return chk({'-': o.neg, '+': o.pos, '~': o.invert}[n[1]](py_ev(n[2], env)))
+    if k == 'pow':
+        return chk(py_ev(n[1], env) ** py_ev(n[2], env))
+    raise AssertionError(k)
+
+
+CHK_EV = '''
+Definition chk_ev (c : list (N * Z) * expr * option Z * list token) : list N :=
+  let '(rho, e, v, t) := c in
+  (if optZ_eqb (ev (env_of rho) e) v then [] else [1%N]) ++
+  (if tokens_eqb (print e) t then [] else [2%N]) ++
+  (if wf_at 1 e then [] else [3%N]).
+'''
+CHK_INLINE = '''
+Definition chk_inline (c : bool * N * expr * ptype * bool * nat * expr * list token * list token * list ptype * bool) : list N :=
+  let '(is_tuple, x, r, pt, mid, lv, e, obs, oldt, pts, fits) := c in
+  (if tokens_eqb (inline_text new_rule is_tuple x r pt mid e) obs then [] else [1%N]) ++
+  (if ptypes_eqb (parents x pt mid e) pts then [] else [2%N]) ++
+  (if tokens_eqb (print e) oldt then [] else [3%N]) ++
+  (if wf_at lv e then [] else [4%N]) ++
+  (if Bool.eqb (wf_at lv (inline_tree new_rule is_tuple x r pt mid e)) fits then [] else [5%N]) ++
+  (if (if is_tuple then wf r else wf_at 1 r) then [] else [6%N]).
+Definition chk_extract (c : N * expr * expr * expr) : list N :=
+  let '(x, s, c0, c1) := c in if is_extraction x s c0 c1 then [] else [1%N].
+'''
+
+
+def stream_ev(ctx):
+    import parso
+    rng = ctx.rng
+    n = ctx.n(1200, 8000)
+    cases, metas = [], []
+    kinds = {}
+    for _ in range(n):
+        node = arith_node(rng, rng.randint(1, 4))
+        text = show(node, 1, rng)
+        env = {v: rng.randint(-3, 7) for v in 'abc'}
+        try:
+            exp = py_ev(node, env)
+            out = 'int'
+        except NonInt:
+            exp, out = None, 'non-int'
+        except (ZeroDivisionError, ValueError, TypeError, OverflowError) as e:
+            exp, out = None, type(e).__name__
+        kinds[out] = kinds.get(out, 0) + 1
+        # CPython itself
+        try:
+            real = eval(compile(text, '<e>', 'eval'), {}, dict(env))
+            real_k = ('val', real)
+        except Exception as e:
+            real_k = ('exc', type(e).__name__)
+        if exp is not None and not (real_k[0] == 'val' and type(real_k[1]) in (int, bool) and int(real_k[1]) == exp):
+            ctx.violation('obligation', dict(what='harness reference evaluator disagrees with CPython', text=text, env=env,
+                                             reference=exp, cpython=repr(real_k)), nofail=True)
+            continue
+        if exp is None and real_k[0] == 'val' and type(real_k[1]) in (int, bool):
+            # an evaluated part left the int fragment but the result is an int again (e.g. `not 2 ** -1`): the model says None
+            pass
+        nm = Names()
+        try:
+            tree = parso.parse(text + '\n').children[0]
+            tree = tree.children[0] if tree.type == 'simple_stmt' else tree
+            e = conv(tree, nm)
+            tk = toks(text, nm)
+        except Unsup as u:
+            ctx.violation('obligation', dict(what='serialiser cannot convert a generated arithmetic expression', text=text,
+                                             why=str(u)), nofail=True)
+            continue
+        rho = g_list([(k, v) for k, v in env.items() if k in nm.ids],
+                     lambda kv: '(%s, %s)' % (nm(kv[0]), g_Z(kv[1])), 'N * Z')
+        cases.append('(%s, %s, %s, %s)' % (rho, e, 'None' if exp is None else '(Some %s)' % g_Z(exp), tk))
+        metas.append(dict(text=text, env=env, expected=exp, outcome=out))
+        ctx.count('ev', (text, tuple(sorted(env.items()))), nontrivial=len(text) > 3)
+    ctx.stat('ev_outcomes', kinds)
+    res, err = common.coq_eval_N_lists(IMPORTS, 'chk_ev', cases, shard=300, defs=CHK_EV)
+    if err:
+        raise RuntimeError('coq evaluation failed (ev): ' + err)
+    names = {1: 'ev (model semantics) differs from CPython', 2: 'print differs from the token sequence of the text',
+             3: 'wf_at rejects a tree parso produced'}
+    bad = [(i, r) for i, r in enumerate(res) if r]
+    for i, r in bad[:5]:
+        shown = common.coq_show(IMPORTS, ["let '(rho, e, v, t) := %s in (ev (env_of rho) e, print e)" % cases[i]])
+        ctx.violation('obligation', dict(what='correspondence ev/print/wf: ' + '; '.join(names[x] for x in r),
+                                         input=metas[i], model=shown[-1500:]), nofail=True)
+    if metas:
+        ctx.sample(dict(stream='ev', **metas[0]))
+
+
+# =====================================================================================
+# 8. driver
+
+WHAT_KNOWN = {}
+
+
+def _report(ctx, r, x, sig, data, what):
+    data = dict(data)
+    data['source'] = r['src']
+    data['request'] = x['req']
+    ctx.deviation(sig, data, what)
+
+
+def stream_programs(ctx):
+    rng = ctx.rng
+    t0 = time.time()
+    mi, mx = matrix_tasks(ctx)
+    nprog = ctx.n(36, 400)
+    budget = dict(mode='random', inline=ctx.n(10, 16), nodes=ctx.n(22, 40), random=ctx.n(8, 14), stmts=ctx.n(8, 14))
+    if ctx.cov.get('intensified'):
+        nprog *= 2
+    progs = []
+    tries = 0
+    while len(progs) < nprog and tries < nprog * 5:
+        tries += 1
+        src = Gen(rng).program()
+        if run_trace(src)[0] == 'ok':
+            progs.append(('p%d' % len(progs), src, rng.randint(0, 10 ** 9), budget, False))
+    ctx.stat('generated_programs', dict(kept=len(progs), tried=tries, lines=sum(p[1].count('\n') for p in progs)))
+    # big programs first, the many tiny matrix programs fill the gaps
+    tasks = progs + mx + mi
+    results = common.pmap(_prog_task, tasks, chunksize=1 if len(tasks) < 400 else 3)
+    ctx.stat('wall_refactorings', round(time.time() - t0, 1))
+    icases, imeta, xcases, xmeta = [], [], [], []
+    outcomes = {}
+    rt = dict(ok=0, text_same=0)
+    skipped = 0
+    for r in results:
+        if r.get('error'):
+            ctx.violation('obligation', dict(what=r['error'], source=r['src']), nofail=True)
+            continue
+        fam = 'matrix-inline' if r['pid'].startswith('mi:') else 'matrix-extract' if r['pid'].startswith('mx:') else 'programs'
+        for x in r['results']:
+            q = x['req']
+            stream = {'inline': 'inline', 'xvar': 'extract_variable', 'xfun': 'extract_function'}[q['kind']]
+            key = '%s/%s/%s/%s' % (fam, q['kind'], q.get('sel') or q.get('at'), x['outcome'] + ('+run' if x.get('eq') else ''))
+            outcomes[key] = outcomes.get(key, 0) + 1
+            ctx.count(stream, (r['src'], json.dumps(q, sort_keys=True)), nontrivial=x['outcome'] != 'refused')
+            for sig, data, what in x['devs']:
+                _report(ctx, r, x, sig, data, what)
+            for note in x['notes']:
+                ctx.violation('obligation', dict(what='inline correspondence: ' + note, source=r['src'], request=q,
+                                                 new_code=x.get('new')), nofail=True)
+            skipped += x.get('skipped', 0)
+            if x.get('roundtrip') == 'ok':
+                rt['ok'] += 1
+                if x.get('roundtrip_text_same'):
+                    rt['text_same'] += 1
+                elif x.get('roundtrip_text_same') is False:
+                    ctx.violation('obligation', dict(
+                        what='extract_variable followed by inline is not the original text modulo parentheses '
+                             '(the model says it is: C06_extract_then_inline_identity); compile and run found no difference',
+                        source=r['src'], request=q, extracted_code=x.get('new')), nofail=True)
+            for case, meta in x['inline_cases']:
+                icases.append(case)
+                imeta.append(dict(meta, source=r['src'], request=q, new_code=x.get('new')))
+            for case, meta in x['extract_cases']:
+                xcases.append(case)
+                xmeta.append(dict(meta, source=r['src'], request=q, new_code=x.get('new')))
+    ctx.stat('outcomes', dict(sorted(outcomes.items())))
+    ctx.stat('roundtrip', rt)
+    ctx.stat('inline_references_outside_model_grammar', skipped)
+    ctx.stat('model_cases', dict(inline=len(icases), extract=len(xcases)))
+    # ---- the model on the same inputs
+    t1 = time.time()
+    res, err = common.coq_eval_N_lists(IMPORTS, 'chk_inline', icases, shard=150, defs=CHK_INLINE, timeout=900)
+    if err:
+        raise RuntimeError('coq evaluation failed (inline): ' + err)
+    names = {1: 'inline_text (new_rule) differs from the text jedi wrote', 2: 'parents differs from tree_name.parent.type',
+             3: 'print differs from the old text', 4: 'wf_at rejects the old tree in its slot',
+             5: 'the model says the new tree does not fit its slot (or fits although the harness expected it not to)',
+             6: 'right-hand side not well formed'}
+    nbad = 0
+    for i, rr in enumerate(res):
+        ctx.count('model-inline', icases[i])
+        if rr:
+            nbad += 1
+            if nbad <= 5:
+                c = icases[i]
+                shown = common.coq_show(IMPORTS, [
+                    "let '(is_tuple, x, r, pt, mid, lv, e, obs, oldt, pts, fits) := %s in "
+                    "(inline_text new_rule is_tuple x r pt mid e, parents x pt mid e)" % c])
+                ctx.violation('obligation', dict(what='correspondence inline: ' + '; '.join(names[k] for k in rr) +
+                                                 ' (compile and run of this result found nothing, or were reported separately)',
+                                                 input=imeta[i], model=shown[-1500:]), nofail=True)
+    res, err = common.coq_eval_N_lists(IMPORTS, 'chk_extract', xcases, shard=300, defs=CHK_INLINE, timeout=900)
+    if err:
+        raise RuntimeError('coq evaluation failed (extract): ' + err)
+    nbad = 0
+    for i, rr in enumerate(res):
+        ctx.count('model-extract', xcases[i])
+        if rr:
+            nbad += 1
+            if nbad <= 5:
+                ctx.violation('obligation', dict(what='correspondence extract: the new statement with the selection put back is not '
+                                                      'the old statement (is_extraction false)', input=xmeta[i]), nofail=True)
+    ctx.stat('wall_model', round(time.time() - t1, 1))
+    if imeta:
+        m = imeta[len(imeta) // 2]
+        ctx.sample(dict(stream='inline', old=m['old'], new=m['new'], slot=m['slot'], rhs=m['rhs'], parent_types=m['parent_types']))
+    if xmeta:
+        m = xmeta[0]
+        ctx.sample(dict(stream='extract', old=m['old'], new=m['new'], selected=m['selected']))
+
+
+def run(ctx):
+    common.setup_jedi(os.path.join(ctx.tmp, 'cache'))
+    ctx.proofs()
+    fps = common.fingerprint(FP)
+    ctx.cov['fingerprints'] = fps
+    try:
+        base = json.load(open(os.path.join(common.VERIF, 'harness', 'c06_fingerprints.json')))
+    except Exception:
+        base = None
+    ctx.cov['intensified'] = bool(base) and any(base.get(k) != v for k, v in fps.items())
+    ctx.cov['rule'] = (
+        'ev: seeded arithmetic/boolean/ternary expressions x environments; matrix: every reference slot (%d expression + %d '
+        'statement slots) x right-hand-side kinds (critical ones always, the rest sampled/all in thorough) through inline, '
+        'every slot x rotating selections through extract_variable/extract_function (cursor-only and range, every sub-expression); '
+        'programs: seeded executable programs, inline on every assigned variable, extraction on sampled expression nodes, '
+        'random sub-ranges and statement ranges; non-trivial = not refused; distinct by (program, request)'
+        % (len(EXPR_SLOTS), len(STMT_SLOTS)))
+    ctx.assumptions += [
+        'the side conditions of the equivalence clause (pure, evaluated once, names stable, not a target) are decided on `ast` by the harness',
+        'which references jedi finds and how it normalises a selection are observed, not modelled',
+        'extract_function: input/output analysis and indentation are covered by the compile-and-run oracle only',
+        'programs are builtin-light (no None/True/False, no builtin calls); behaviour = the value of the module-level list `trace`',
+    ]
+    for f in (stream_ev, stream_programs):
+        t = time.time()
+        f(ctx)
+        ctx.stat('wall_' + f.__name__, round(time.time() - t, 1))
+
+
+def replay(ctx, path):
+    rec = json.load(open(path))
+    print(json.dumps({k: v for k, v in rec.items() if k not in ('source', 'new_code')}, indent=1, ensure_ascii=False)[:3000])
+    common.setup_jedi(os.path.join(ctx.tmp, 'cache'))
+    src = rec.get('source') or (rec.get('input') or {}).get('source')
+    req = rec.get('request') or (rec.get('input') or {}).get('request')
+    if not src or not req:
+        return 0
+    import jedi
+    print('--- source'); print(src)
+    api = {'inline': 'inline', 'xvar': 'extract_variable', 'xfun': 'extract_function'}[req['kind']]
+    kw = {}
+    if req['kind'] != 'inline':
+        kw['new_name'] = NEW_VAR if req['kind'] == 'xvar' else NEW_FUNC
+        if req.get('uline') is not None:
+            kw['until_line'], kw['until_column'] = req['uline'], req['ucol']
+    out, payload = _call(jedi.Script(src, project=_project()), api, req['line'], req['col'], **kw)
+    print('--- %s(%s, %s, %s) now: %s' % (api, req['line'], req['col'], kw, out))
+    print(payload if out != 'ok' else payload)
+    if out == 'ok':
+        print('--- old run:', run_trace(src)); print('--- new run:', run_trace(payload))
+    return 0
